@@ -3,14 +3,17 @@ CONSTANTS
   Accounts = {"a", "b"}
   Values = {0, 2}
   Limits = {0, 1}
+  Sizes = {1}
   MaxTs = 3
   Th = 1
   Price = 1
   MinStep = 1
   InitBal = 2
+  Rich = {"a", "b"}
+  PoorBal = 0
   MaxN = 3
   MaxPool = 3
   MaxOps = 0
 VIEW ViewNoHist
 INVARIANTS TypeOK NothingToPropose
-PROPERTIES CandidateValid DropsJustified DropOldExact
+PROPERTIES CandidateValid DropsJustified DropOldExact FitsByteLimit
